@@ -135,11 +135,11 @@ CLAIMS = {
         "design_ref": "DESIGN.md section 4 C19",
     },
     "C20": {
-        "engine": "K",
-        "technique": "Kani exhaustive enumeration of all 256 byte values through the real private percent-encode sets (observed via percent_encode(&[b], SET))",
-        "text": "Proof by complete enumeration: with the non-strict set a byte is emitted verbatim iff it is an ASCII letter, digit, one of -._~ or '/', otherwise as an upper-case %XX escape of exactly that byte (so '%' itself is escaped and decoding is unambiguous); with the strict set verbatim iff ASCII alphanumeric.",
-        "note": "Losslessness itself rests on the contracts of percent-encoding / base64 / serde_json / slug (third-party, assumed); the base64 option table could not be reached (it sits inside the filter behind Kwargs; encode/decode of 3 bytes exceeded 240 s); json_encode and slug not decided.",
-        "design_ref": "DESIGN.md section 4 C20",
+        "engine": "V+K",
+        "technique": "Verus contracts on the real b64_encode / b64_decode (tera-contrib, expanded) against the (alphabet, padding) option table, plus a lossless lemma over the two contracts; Kani exhaustive enumeration of all 256 byte values through the real private percent-encode sets",
+        "text": "Proof: (1) b64_encode uses, for each of the four (url_safe, padded) combinations, the engine with exactly that alphabet and padding (defaults false / true), b64_decode picks the decoder by url_safe and fails exactly when base64 or UTF-8 decoding fails; lemma: decoding with the same url_safe returns the encoded text for every padding choice. (2) By complete enumeration: with the non-strict set a byte is emitted verbatim iff it is an ASCII letter, digit, one of -._~ or '/', otherwise as an upper-case %XX escape of exactly that byte (so '%' itself is escaped and decoding is unambiguous); with the strict set verbatim iff ASCII alphanumeric.",
+        "note": "Losslessness rests on the contracts of the base64 / percent-encoding / serde_json / slug crates (third-party, ASSUMED: axiom_b64_roundtrip, the meaning of the four engine constants and of the two decode engines defined in the file); Kwargs::get is a trusted declaration; json_encode and slug not decided.",
+        "design_ref": "DESIGN.md section 4 C20, section 0.3",
     },
 }
 
